@@ -35,6 +35,16 @@ func typeRelName(p *Program, t types.Type) string {
 func (x *Exec) roleSite(v ssa.Value) string {
 	switch v := v.(type) {
 	case *ssa.Parameter:
+		// a function value handed on to an inlined, uncontracted helper keeps the role it had in the caller
+		if x.curState != nil {
+			for i := len(x.curState.frames) - 1; i >= 1; i-- {
+				if fr := x.curState.frames[i]; fr.fn == v.Parent() && fr.paramSite != nil {
+					if s := fr.paramSite[v]; s != "" {
+						return s
+					}
+				}
+			}
+		}
 		return "param " + v.Name() + " of " + x.prog.relName(v.Parent())
 	case *ssa.FreeVar:
 		return "freevar " + v.Name() + " of " + x.prog.relName(v.Parent())
@@ -441,6 +451,7 @@ func (x *Exec) callCommon(st *State, c *ssa.CallCommon, args []Val, pos token.Po
 	if ci, ok := st.closures[fv.L[0]]; ok {
 		return x.callFunction(st, ci.fn, ci.bindings, args, pos, k)
 	}
+	x.curState = st
 	site := x.roleSite(c.Value)
 	if r := x.roleFor(site); r != nil {
 		return true, x.applySpec(st, r, r.Params, args, sig, callCtx{label: "role:" + r.Name, pos: pos, self: &fv})
@@ -578,6 +589,19 @@ func (x *Exec) inline(st *State, f *ssa.Function, bindings []Val, args []Val, k 
 	fr := &Frame{fn: f, regs: map[ssa.Value]Val{}, free: bindings, retK: k, depth: len(st.frames)}
 	for i, p := range f.Params {
 		fr.regs[p] = Val{T: p.Type(), L: args[i].L}
+	}
+	if c := x.curCall; c != nil && !c.IsInvoke() && c.StaticCallee() == f && len(c.Args) == len(f.Params) {
+		x.curState = st
+		for i, p := range f.Params {
+			if _, isFn := p.Type().Underlying().(*types.Signature); isFn {
+				if s := x.roleSite(c.Args[i]); s != "" {
+					if fr.paramSite == nil {
+						fr.paramSite = map[*ssa.Parameter]string{}
+					}
+					fr.paramSite[p] = s
+				}
+			}
+		}
 	}
 	st.frames = append(st.frames, fr)
 	x.analyzeLoops(f)
@@ -723,7 +747,7 @@ func (x *Exec) runDefers(st *State, k func(*State)) {
 		default:
 			if ci, ok := st.closures[d.fnv.L[0]]; ok {
 				done, _ = x.callFunction(st, ci.fn, ci.bindings, d.args, c.Pos(), next)
-			} else if r := x.roleFor(x.roleSite(c.Value)); r != nil {
+			} else if r := x.roleFor(func() string { x.curState = st; return x.roleSite(c.Value) }()); r != nil {
 				x.applySpec(st, r, r.Params, d.args, c.Signature(), callCtx{label: "role:" + r.Name, pos: c.Pos()})
 				done = true
 			} else {
